@@ -326,6 +326,30 @@ inline void runSeq(const SeqCase &c, pbt::Ctx &ctx)
       PBT_ASSERT(r.cursor == before + (threw ? 0 : count));
     }
   }
+  // 3b. the cursor is a public member: a parser that skips a chunk with `reader.cursor += len` on a truncated message
+  // leaves it BEYOND the end; every further read / view (of at least one byte) must throw and leave the cursor alone
+  {
+    BufferReader r(exactBuffer(bytes.data(), total));
+    for (int sel : c.viewCounts) {
+      const size_t beyond = total + 1 + (size_t)(sel % 7) * (size_t)(sel % 3 == 0 ? 1 : 4096);
+      const size_t count = 1 + (size_t)(sel % 5) * 3;
+      r.cursor = beyond;
+      bool threw = false;
+      try {
+        if (sel % 2) {
+          uint8_t tmp[16];
+          r.read(tmp, count);
+        } else
+          (void)r.getView<uint8_t>(count);
+      } catch (const std::runtime_error &) {
+        threw = true;
+      }
+      PBT_ASSERT_MSG(threw, (sel % 2 ? "read(" : "getView(") << count << ") with the cursor " << beyond - total << " bytes beyond the end of a " << total << "-byte buffer did not throw");
+      PBT_ASSERT_MSG(r.cursor == beyond, "a rejected access moved the cursor");
+      PBT_ASSERT(r.end());
+      ctx.label("cursor beyond the end");
+    }
+  }
   // 4. truncations: reading the sequence from the first k bytes must throw (some std::exception) and stay in bounds
   size_t truncs = 0;
   if (total > 0) {
